@@ -216,7 +216,10 @@ class PosePath3D(object):
         # Project poses and rotations (forcing to angle around normal).
         rotation_axis = np.zeros(3)
         rotation_axis[null_dim] = 1
-        for pose in self.poses_se3:
+        # Edit copies: the pose matrices can be shared with other objects,
+        # e.g. with the trajectory from which this one was split off.
+        self._poses_se3 = [np.copy(pose) for pose in self.poses_se3]
+        for pose in self._poses_se3:
             pose[null_dim, 3] = 0
             angle_axis = rotation_axis * tr.euler_from_matrix(
                 pose[:3, :3], "sxyz")[null_dim]
